@@ -43,8 +43,15 @@ claim('C18', 'Proof over the real Filter.run/init/exit/fini (abstract stages, gh
       'the heartbeat thread starts; one run id per emitter on every event; the heartbeat thread emits RUNNING* then exactly one COMPLETE only after its stop event. The terminal-event '
       'clauses (exactly one terminal event, COMPLETE iff clean) FAIL on this tree at 7 emitting call sites and are recorded as known findings (one per call site and clause); they are '
       'therefore NOT established. A new emitting call site or a change of the proved clauses is a violation.', '6-C18')
+claim('C13', 'Proof on the real RollLog.write / new_logfile / prune_logfiles over a ghost file system, from EVERY writer state satisfying LogInv (0..3 files, symbolic stamps, sizes, budgets, '
+      'record sizes, given or clock timestamps incl. equal and backwards ones): LogInv preserved, files on disk total <= max(total_size, newest), newest never pruned, only the oldest '
+      'files removed, no existing log file is ever re-opened for writing, reader position rebased correctly; real refresh_logfiles / seek_block never move the position backwards nor '
+      'skip an existing newer file under external deletions and new files. The byte-level read loop (record-level once/in-order/untorn) is NOT under contract.', '6-C13')
+claim('C14', 'Proof on the real RollLog.write_head (crash invariant asserted after EVERY file-system call: the head file holds the previous or the new position), close, tell (position of '
+      'the next unread byte), __init__ restart (exactly a [str, int] record is accepted, anything else raises before the position is used) and seek (reopen at the saved offset / first '
+      'existing larger file / end; a file deleted in the meantime is skipped forward only), for 0..3 log files with symbolic stamps and offsets; no-skip lemma over these specifications.', '6-C14')
 _todo = 'check not built yet in this session (planned, see DESIGN.md section 6); not claimed until its obligations are discharged'
-for _p in ( 'C11', 'C12', 'C13', 'C14', 'C15'):
+for _p in ( 'C11', 'C12', 'C15'):
     NA[_p] = _todo
 NA['C06'] = ('liveness under fairness and bounded-time recovery across several processes: not expressible as pre/postconditions or invariants of one call; '
              'termination is not proved by this verifier (DESIGN.md section 7); its safety ingredients are proved under C02/C04/C05')
